@@ -5,15 +5,24 @@
 package main
 
 import (
+	"encoding/json"
 	"fmt"
 	"math/rand"
+	"net/http"
+	"net/http/httptest"
+	"net/url"
+	"os"
 	"reflect"
 	"sort"
 	"strings"
 	"time"
 	"unicode/utf8"
 
+	"github.com/pyroscope-io/pyroscope/pkg/config"
+	"github.com/pyroscope-io/pyroscope/pkg/server"
 	"github.com/pyroscope-io/pyroscope/pkg/storage"
+	"github.com/pyroscope-io/pyroscope/pkg/storage/tree"
+	"github.com/sirupsen/logrus"
 	"verifharness/lib"
 )
 
@@ -31,6 +40,8 @@ type Input struct {
 	Vars   []Struct `json:"vars,omitempty"`
 	Levels []int    `json:"levels,omitempty"`
 	Times  []int64  `json:"times,omitempty"`
+	// also use the name through the real storage: Put, read the label index back, Get, retention pass
+	Store bool `json:"store,omitempty"`
 }
 
 func renderStruct(s Struct) string {
@@ -133,6 +144,105 @@ func optBytes(p *string) string {
 	return lib.Some(bstr(*p))
 }
 
+const storeBase = 1600000000
+const storeCount = 3
+
+func samples(s *storage.Storage, k *storage.Key) (uint64, error) {
+	out, err := s.Get(&storage.GetInput{StartTime: time.Unix(storeBase, 0), EndTime: time.Unix(storeBase+10000000, 0), Key: k})
+	if err != nil {
+		return 0, err
+	}
+	if out == nil || out.Tree == nil {
+		return 0, nil
+	}
+	return out.Tree.Samples(), nil
+}
+
+// storeObs writes one upload under the name and reads everything back. Returns the Coq term or a crash text.
+func storeObs(name string) (coq string, crash string) {
+	dir, err := os.MkdirTemp("/tmp", "keys-harness-")
+	if err != nil {
+		return "", "mkdtemp: " + err.Error()
+	}
+	defer os.RemoveAll(dir)
+	storage.VerifDisablePeriodicTasks()
+	storage.OutOfSpaceThreshold = 0
+	cfg := &config.Server{StoragePath: dir, APIBindAddr: ":4040", CacheEvictThreshold: 0.02, CacheEvictVolume: 0.10,
+		MaxNodesSerialization: 2048, MaxNodesRender: 2048}
+	s, err := storage.New(cfg)
+	if err != nil {
+		return "", "storage.New: " + err.Error()
+	}
+	defer s.Close()
+	defer func() {
+		if r := recover(); r != nil {
+			coq, crash = "", fmt.Sprintf("storage panicked: %v", r)
+		}
+	}()
+	k, _ := storage.ParseKey(name)
+	t := tree.New()
+	t.Insert([]byte("s"), storeCount)
+	if err := s.Put(&storage.PutInput{StartTime: time.Unix(storeBase+20, 0), EndTime: time.Unix(storeBase+30, 0), Key: k, Val: t,
+		SpyName: "verif", SampleRate: 100}); err != nil {
+		return "", "Put: " + err.Error()
+	}
+	var keys []string
+	s.GetKeys(func(k string) bool { keys = append(keys, k); return true })
+	want := append([]string{}, keys...)
+	want = append(want, "__name__")
+	for _, kv := range labelsOf(k) {
+		want = append(want, kv[0])
+	}
+	ctrl, err := server.New(cfg, s)
+	if err != nil {
+		return "", "server.New: " + err.Error()
+	}
+	mux := ctrl.VerifMux()
+	seen := map[string]bool{}
+	var vals, hvals []string
+	strs := func(ss []string) string {
+		items := make([]string, len(ss))
+		for i, x := range ss {
+			items[i] = bstr(x)
+		}
+		return lib.List(items)
+	}
+	for _, key := range want {
+		if seen[key] {
+			continue
+		}
+		seen[key] = true
+		var vs []string
+		s.GetValues(key, func(v string) bool { vs = append(vs, v); return true })
+		vals = append(vals, lib.Pair(bstr(key), strs(vs)))
+		rec := httptest.NewRecorder()
+		mux.ServeHTTP(rec, httptest.NewRequest(http.MethodGet, "/label-values?label="+url.QueryEscape(key), nil))
+		var hv []string
+		if rec.Code != 200 || json.Unmarshal(rec.Body.Bytes(), &hv) != nil {
+			return "", fmt.Sprintf("GET /label-values?label=%q: status %d", key, rec.Code)
+		}
+		hvals = append(hvals, lib.Pair(bstr(key), strs(hv)))
+	}
+	got, err := samples(s, k)
+	if err != nil {
+		return "", "Get: " + err.Error()
+	}
+	k2, _ := storage.ParseKey(k.Normalized())
+	regot, err := samples(s, k2)
+	if err != nil {
+		return "", "Get (canonical): " + err.Error()
+	}
+	if err := s.DeleteDataBefore(time.Unix(storeBase+1000000, 0)); err != nil {
+		return "", "DeleteDataBefore: " + err.Error()
+	}
+	left, err := samples(s, k)
+	if err != nil {
+		return "", "Get after retention: " + err.Error()
+	}
+	return fmt.Sprintf("{| so_count := %d; so_keys := %s; so_vals := %s; so_hvals := %s; so_get := %d; so_reget := %d; so_left := %d |}",
+		storeCount, strs(keys), lib.List(vals), lib.List(hvals), got, regot, left), ""
+}
+
 func run(in Input) lib.Result {
 	name := in.raw()
 	k, err := storage.ParseKey(name)
@@ -172,6 +282,14 @@ func run(in Input) lib.Result {
 		n, l := coqStruct(v)
 		vars = append(vars, fmt.Sprintf("{| v_name := %s; v_tags := %s; v_str := %s; v_norm := %s |}", n, l, runes(txt), bstr(kv.Normalized())))
 	}
+	storeC := "None"
+	if in.Store {
+		so, crash := storeObs(name)
+		if crash != "" {
+			return lib.Result{Crash: crash}
+		}
+		storeC = lib.Some(so)
+	}
 	coq := "{| c_in := " + runes(name) +
 		"; c_labels := " + coqLabels(lbl) +
 		"; c_norm := " + bstr(norm) +
@@ -183,13 +301,20 @@ func run(in Input) lib.Result {
 		"; c_reapp := " + bstr(k2.AppName()) +
 		"; c_tks := " + lib.List(tks) +
 		"; c_struct := " + st +
-		"; c_vars := " + lib.List(vars) + " |}"
+		"; c_vars := " + lib.List(vars) +
+		"; c_store := " + storeC + " |}"
 
 	// features (evidence only)
 	ws := false
 	for _, r := range name {
 		if r == ' ' || r == '\t' || r == 0xa0 || r == 0x85 || r == 0x2003 || r == 0x3000 || r == '\n' {
 			ws = true
+		}
+	}
+	emptyVal := false
+	for _, kv := range lbl {
+		if kv[0] != "__name__" && kv[1] == "" {
+			emptyVal = true
 		}
 	}
 	reserved := strings.Contains(name, "__name__")
@@ -210,7 +335,8 @@ func run(in Input) lib.Result {
 		Coq:        coq,
 		NonTrivial: ntags >= 2 || ws || reserved || eqs > ntags,
 		Feat: map[string]interface{}{"len": len([]rune(name)), "tags": ntags, "class": class,
-			"variants": len(in.Vars), "brace_in_name": strings.Contains(k.AppName(), "{"), "structured": in.Struct != nil},
+			"variants": len(in.Vars), "brace_in_name": strings.Contains(k.AppName(), "{"), "structured": in.Struct != nil,
+			"through_storage": in.Store, "empty_app_name": k.AppName() == "", "empty_tag_value": emptyVal},
 		Obs: map[string]interface{}{"name": fmt.Sprintf("%q", name), "normalized": fmt.Sprintf("%q", norm), "app": fmt.Sprintf("%q", k.AppName())},
 	}
 }
@@ -376,7 +502,39 @@ func randLevelsTimes(r *rand.Rand) ([]int, []int64) {
 	return lv, ts
 }
 
+// names with empty parts, used through the real storage
+var emptyish = []string{"", " ", "\t ", "{host=a}", " {host=a}", "{}", " { } ", "x{__name__=}", "x{__name__= }", "app{x=}", "app{x= ,y=}",
+	"app{=}", "app{=v}", "{=}", "{a=,b=}", "app{x=,x=1}", "app{x=1,x=}", "{__name__=}", "a{b}", "a{b=c}d"}
+
+func genStore(r *rand.Rand) Input {
+	in := Input{Store: true, Levels: []int{0}, Times: []int64{0}}
+	switch k := r.Intn(10); {
+	case k < 5:
+		in.Text = lib.Pick(r, emptyish)
+	case k < 8:
+		s := genStruct(r)
+		if lib.Chance(r, 0.4) {
+			s.Name = []int{}
+		}
+		if lib.Chance(r, 0.4) && len(s.Tags) > 0 {
+			s.Tags[r.Intn(len(s.Tags))][1] = pad(r, []int{}, 0.3)
+		}
+		in.Struct = &s
+	default:
+		n := lib.Range(r, 0, 8)
+		bs := []int{}
+		for i := 0; i < n; i++ {
+			bs = append(bs, lib.Pick(r, small)...)
+		}
+		in.Bytes = bs
+	}
+	return in
+}
+
 func gen(r *rand.Rand, idx int, tier string) Input {
+	if idx%10 == 9 {
+		return genStore(r)
+	}
 	lv, ts := randLevelsTimes(r)
 	switch k := r.Intn(10); {
 	case k < 5: // structured with order/white-space variants
@@ -435,5 +593,6 @@ func gen(r *rand.Rand, idx int, tier string) Input {
 }
 
 func main() {
+	logrus.SetLevel(logrus.PanicLevel)
 	lib.Main(lib.Harness[Input]{Prop: "C15", Quick: 1200, Thorough: 12000, Gen: gen, Enum: enum, Run: run})
 }
